@@ -4,7 +4,7 @@ from typing import Tuple
 from vlib import chx, enc
 from vlib.chx import pinned
 from vlib.oracles import cfg as OC
-from vlib.registry import Cond, product_pins
+from vlib.registry import Cond, product_pins, cfg_pins
 from vlib.conds.c08 import grammar_tags, P2, P3, P2B3
 
 cfg_canonical = enc.cfg_canonical
@@ -201,8 +201,8 @@ def _sh_p2(tier):
 
 
 def _sh_p3(tier):
-    return product_pins(h0=[0, 1], l0=[0, 1, 2], s0=[0, 1, 2, 3], h1=[0, 1], perm=[0]) + \
-        product_pins(h0=[1], l0=[0, 1, 2], s0=[0, 1, 2, 3], h1=[1], perm=[5])
+    return cfg_pins(product_pins(h0=[0, 1], l0=[0, 1, 2], s0=[0, 1, 2, 3], h1=[0, 1], perm=[0]) +
+                    product_pins(h0=[1], l0=[0, 1, 2], s0=[0, 1, 2, 3], h1=[1], perm=[5]))
 
 
 def _sh_b4(tier):
